@@ -439,11 +439,8 @@ theorem noCrash_sliceStep (lo hi : Str) (n : Node) (c : Ctx) : (sliceStep lo hi 
   · exact noCrash_map _ (noCrash_sliceOnMap _ _ _ _)
   · exact noCrash_map _ (noCrash_sliceOnSet _ _ _ _)
 
-theorem noCrash_anchorStep (a : Str) (n : Node) (c : Ctx) : (anchorStep a n c).NoCrash := by
-  unfold anchorStep
-  split
-  · exact noCrash_nil
-  · exact noCrash_ofList _
+theorem noCrash_anchorStep (a : Str) (n : Node) (c : Ctx) : (anchorStep a n c).NoCrash :=
+  noCrash_ofList _
 
 variable {mt : Matcher} {dsc : Desc}
 
